@@ -164,6 +164,12 @@ LiveNext(w, e) ==
           \cup weak("watch-order-dup", \E j \in Olds(w, k, e) : ~RestoreIn(k, j + 1, w.cur[k]))
           \cup weak("watch-order", TRUE)
 
+\* the event can be consumed by the strict rule (no relaxed alternative involved)
+WEvStrict(e) ==
+  \/ e.kind \in {"closed", "eos"} \/ e.ph = "snap"
+  \/ LET w == ws[e.wid]  k == e.r[1].k IN
+       k \in Keys(st) /\ HasNext(st, w, k) /\ SameEvent(k, NextEntry(st, w, k), e)
+
 WEvNext(e) ==
   IF ~CanPosition(e.wid) THEN {}
   ELSE IF e.kind \in {"closed", "eos"} \/ e.ph = "snap" THEN {Positioned(e.wid)}
@@ -182,6 +188,9 @@ WRdOK(e) ==
 \* WatchComplete (events): after the last writes of the run the watcher has been told everything
 WDoneOK(e) == \/ "watch-done" \in Relax
               \/ e.wid \in DOMAIN ws /\ CaughtUp(st, ws[e.wid])
+              \/ /\ e.wid \in DOMAIN ws
+                 /\ PrintT(<<"BEHIND", l, {<<k, ws[e.wid].cur[k], Len(st.log[k])>> : k \in {x \in Keys(st) : Matches(ws[e.wid].q, x) /\ ws[e.wid].cur[x] # Len(st.log[x])}}>>)
+                 /\ FALSE
 
 ---------------------------------------------------------------------------
 (* consuming recorded events *)
@@ -211,12 +220,12 @@ WRd == /\ Trace[l].e = "wrd" /\ WRdOK(Trace[l])
 WDone == /\ Trace[l].e = "wdone" /\ WDoneOK(Trace[l])
          /\ UNCHANGED <<st, pend, done, ws, hdr, aux>>
 
-\* the next event cannot be consumed in the current state, or it fixes the position of a watch's listing:
-\* some pending mutation may have to take effect first.  (a linearization point commutes with every
+\* the next event cannot be consumed (by the strict rules) in the current state, or it fixes the position of
+\* a watch's listing: some pending mutation may have to take effect first.  (a linearization point commutes with every
 \* other event that can be consumed without it)
 NeedLin == /\ l <= N
            /\ \/ Trace[l].e = "ret" /\ Trace[l].id \notin done
-              \/ Trace[l].e = "wev" /\ (Trace[l].wid \notin DOMAIN ws \/ WEvNext(Trace[l]) = {})
+              \/ Trace[l].e = "wev" /\ (Trace[l].wid \notin DOMAIN ws \/ ~WEvStrict(Trace[l]))
               \/ Trace[l].e = "wrd" /\ ~WRdOK(Trace[l])
               \/ Trace[l].e = "wdone" /\ ~WDoneOK(Trace[l])
 
